@@ -16,6 +16,7 @@ import (
 	"net/url"
 	"os"
 	"path/filepath"
+	"sort"
 	"strings"
 	"sync"
 	"syscall"
@@ -141,6 +142,8 @@ func (scriptTransport) RoundTrip(req *http.Request) (*http.Response, error) {
 
 // ---- configuration ----------------------------------------------------------
 
+// Tgt is one deliver block as WRITTEN in the configuration text. An empty Max/Base/Cap/Jitter/Timeout means
+// "not written" (the block leaves that setting to defaults.deliver / the documented built-in default).
 type Tgt struct {
 	Path    string `json:"path"` // URL path on okHost
 	Max     string `json:"max"`
@@ -148,6 +151,9 @@ type Tgt struct {
 	Cap     string `json:"cap"`
 	Jitter  string `json:"jitter"`
 	Timeout string `json:"timeout"`
+	Route   string `json:"route,omitempty"` // route the block is written in ("" = routePath)
+	Kind    string `json:"kind,omitempty"`  // label of the setting kind (parts f/g), no meaning for the run
+	Rev     bool   `json:"rev,omitempty"`   // written in the opposite order (timeout first, retry keywords jitter..max)
 }
 
 func (t Tgt) URL() string { return "http://" + okHost + t.Path }
@@ -157,14 +163,7 @@ const routePath = "/r"
 // dslText is the configuration text without the listener lines (bootWorld adds them: the addresses are
 // placeholders of the in-memory network and must be unique per boot).
 func dslText(targets []Tgt, conc int) string {
-	var b strings.Builder
-	b.WriteString("defaults {\n  egress {\n    deny \"" + deniedHost + "\"\n    https_only off\n    redirects off\n    dns_rebind_protection off\n  }\n}\n")
-	fmt.Fprintf(&b, "%s {\n  deliver_concurrency %d\n", routePath, conc)
-	for _, t := range targets {
-		fmt.Fprintf(&b, "  deliver \"%s\" {\n    retry exponential max %s base %s cap %s jitter %s\n    timeout %s\n  }\n", t.URL(), t.Max, t.Base, t.Cap, t.Jitter, t.Timeout)
-	}
-	b.WriteString("}\n")
-	return b.String()
+	return specDSL(Spec{Targets: targets, Conc: conc})
 }
 
 // compileAccepts runs the real Parse + Compile on the text.
@@ -267,6 +266,10 @@ type recorder struct {
 	runaway  bool
 	done     chan struct{}
 	doneOnce bool
+
+	tracked      map[string]bool // nil: every message is a judged one; else the judged ids (the rest is other traffic)
+	otherLease   map[string]bool // leases handed out for other traffic
+	otherSettled int             // other-traffic leases that were acked or dead-lettered
 }
 
 func newRecorder(under queue.Store, want, stopAt, maxSends int) *recorder {
@@ -301,6 +304,13 @@ func (r *recorder) Dequeue(req queue.DequeueRequest) (queue.DequeueResponse, err
 	if err == nil && len(resp.Items) > 0 {
 		r.mu.Lock()
 		for _, it := range resp.Items {
+			if r.tracked != nil && !r.tracked[it.ID] {
+				if r.otherLease == nil {
+					r.otherLease = map[string]bool{}
+				}
+				r.otherLease[it.LeaseID] = true
+				continue
+			}
 			s := &Send{Attempt: it.Attempt, lease: it.LeaseID, Cycle: r.cycle[it.ID]}
 			r.logs[it.ID] = append(r.logs[it.ID], s)
 			r.byLease[it.LeaseID] = s
@@ -316,6 +326,10 @@ func (r *recorder) settle(lease, action string, delay time.Duration, reason stri
 	defer r.mu.Unlock()
 	s := r.byLease[lease]
 	if s == nil {
+		if r.otherLease[lease] && err == nil && (action == "ack" || action == "dead") {
+			delete(r.otherLease, lease)
+			r.otherSettled++
+		}
 		return
 	}
 	if s.Action != "" { // a second mutation on the same lease: keep the first, remember the fact
@@ -451,11 +465,15 @@ type scripted struct {
 	mu      sync.Mutex
 	pos     map[string]int
 	over    map[string]int // sends beyond the script
+	other   func(id string) Beh // answer for messages without a script (other traffic, parts f)
 }
 
 func (s *scripted) Deliver(ctx context.Context, d dispatcher.Delivery) dispatcher.Result {
 	s.mu.Lock()
 	sc := s.scripts[d.ID]
+	if len(sc) == 0 && s.other != nil {
+		sc = []Beh{s.other(d.ID)}
+	}
 	i := s.pos[d.ID]
 	s.pos[d.ID]++
 	if i >= len(sc) {
@@ -500,6 +518,14 @@ type Msg struct {
 	Target      string `json:"target"`       // target URL
 	PreAttempts int    `json:"pre_attempts"` // dequeue+nack(0) cycles before the dispatcher starts
 	Script      []Beh  `json:"script"`       // answers per send; the last one repeats
+	Route       string `json:"route,omitempty"`
+}
+
+func (m Msg) route() string {
+	if m.Route != "" {
+		return m.Route
+	}
+	return routePath
 }
 
 type Spec struct {
@@ -514,6 +540,11 @@ type Spec struct {
 	Requeue    int     `json:"requeue"`      // how often dead messages are requeued from the DLQ (new cycles)
 	MaxPerLife int     `json:"max_per_life"` // runaway guard (sends per message and cycle)
 	DrainAtMS  int     `json:"drain_at_ms"`  // >0: Drain is called at that virtual time instead of at the end of the history
+
+	Defaults *Tgt   `json:"defaults,omitempty"`  // written defaults.deliver block (nil: none written; empty fields: not written)
+	Burst    *Burst `json:"burst,omitempty"`     // other traffic through the same store (part f)
+	Restart  string `json:"restart,omitempty"`   // operator action that starts the new cycle: "" = requeue-dead | requeue-messages | requeue-filter | cancel-resume
+	HorizonS int    `json:"horizon_s,omitempty"` // >0: virtual-time horizon of one cycle in seconds (default: derived from the compiled timeouts)
 }
 
 type Final struct {
@@ -535,6 +566,10 @@ type Result struct {
 	Over      map[string]int                     `json:"over"`
 	Infra     string                             `json:"infra,omitempty"`
 	VirtualNS int64                              `json:"virtual_ns"`
+
+	Restarts  map[string][]int `json:"restarts,omitempty"` // message id -> cycles the operator started for it
+	OtherSent int              `json:"other_sent"`         // other-traffic messages put into the store
+	OtherOpen int              `json:"other_open"`         // ... of which not delivered/dead-lettered at the end
 }
 
 var (
@@ -575,8 +610,8 @@ func openStore(kind, dir string) (queue.Store, func(), error) {
 
 // runHistory executes one history on the real dispatcher inside a bubble.
 func runHistory(t *testing.T, sp Spec) Result {
-	res := Result{Logs: map[string][]*Send{}, Final: map[string]Final{}, Rows: map[string][]queue.DeliveryAttempt{}}
-	w, err := bootWorld(dslText(sp.Targets, sp.Conc))
+	res := Result{Logs: map[string][]*Send{}, Final: map[string]Final{}, Rows: map[string][]queue.DeliveryAttempt{}, Restarts: map[string][]int{}}
+	w, err := bootWorld(specDSL(sp))
 	if err != nil {
 		res.Infra = "boot: " + err.Error()
 		return res
@@ -592,15 +627,20 @@ func runHistory(t *testing.T, sp Spec) Result {
 		maxPer = 8
 	}
 	var horizon time.Duration
-	for _, tg := range w.Routes[0].Targets {
-		per := tg.Timeout + 2*tg.Retry.Cap + 10*time.Second
-		n := maxPer + 2
-		if sp.StopAfter > n {
-			n = sp.StopAfter + 2
+	for _, rt := range w.Routes {
+		for _, tg := range rt.Targets {
+			per := tg.Timeout + 2*tg.Retry.Cap + 10*time.Second
+			n := maxPer + 2
+			if sp.StopAfter > n {
+				n = sp.StopAfter + 2
+			}
+			if h := time.Duration(n) * per * time.Duration(len(sp.Msgs)); h > horizon {
+				horizon = h
+			}
 		}
-		if h := time.Duration(n) * per * time.Duration(len(sp.Msgs)); h > horizon {
-			horizon = h
-		}
+	}
+	if sp.HorizonS > 0 {
+		horizon = time.Duration(sp.HorizonS) * time.Second
 	}
 
 	synctest.Test(t, func(t *testing.T) {
@@ -611,30 +651,23 @@ func runHistory(t *testing.T, sp Spec) Result {
 			return
 		}
 		defer closeStore()
-		for _, m := range sp.Msgs {
-			if err := under.Enqueue(queue.Envelope{ID: m.ID, Route: routePath, Target: m.Target, Payload: []byte("p-" + m.ID), Headers: map[string]string{"X-M": m.ID}}); err != nil {
-				res.Infra = "enqueue: " + err.Error()
-				return
-			}
-			for i := 0; i < m.PreAttempts; i++ {
-				resp, err := under.Dequeue(queue.DequeueRequest{Route: routePath, Target: m.Target, Batch: 1, LeaseTTL: 30 * time.Second})
-				if err != nil || len(resp.Items) != 1 || resp.Items[0].ID != m.ID {
-					res.Infra = fmt.Sprintf("pre-attempt dequeue: err=%v items=%d", err, len(resp.Items))
-					return
-				}
-				if err := under.Nack(resp.Items[0].LeaseID, 0); err != nil {
-					res.Infra = "pre-attempt nack: " + err.Error()
-					return
-				}
-			}
-		}
+
 		rec := newRecorder(under, len(sp.Msgs), sp.StopAfter, maxPer)
 		del := &scripted{rec: rec, scripts: map[string][]Beh{}, pos: map[string]int{}, over: map[string]int{}}
 		if sp.HTTP {
 			del.inner = w.HTTP
 		}
+		var ids []string
 		for _, m := range sp.Msgs {
 			del.scripts[m.ID] = m.Script
+			ids = append(ids, m.ID)
+		}
+		if sp.Burst != nil {
+			rec.tracked = map[string]bool{}
+			for _, id := range ids {
+				rec.tracked[id] = true
+			}
+			del.other = sp.Burst.answer
 		}
 		var store queue.Store = rec
 		if rec.batch == nil {
@@ -646,9 +679,70 @@ func runHistory(t *testing.T, sp Spec) Result {
 			// drain at the end of a history cheap (no influence on classification, delay or settlement)
 			d.MaxWait = 250 * time.Millisecond
 		}
-		d.Start()
+		started := false
+		start := func() {
+			if !started {
+				started = true
+				d.Start()
+			}
+		}
 
-		for round := 0; ; round++ {
+		// other traffic (part f): N messages through the same store and the same dispatcher
+		otherWant := 0
+		burst := func(tag string, wait bool) bool {
+			if sp.Burst == nil || !sp.Burst.at(tag) {
+				return true
+			}
+			route, target := sp.Burst.routeTarget(sp)
+			for i := 0; i < sp.Burst.N; i++ {
+				id := fmt.Sprintf("x-%s-%05d", tag, i)
+				if err := under.Enqueue(queue.Envelope{ID: id, Route: route, Target: target, Payload: []byte("p"), Headers: map[string]string{"X-M": id}}); err != nil {
+					res.Infra = "enqueue other traffic: " + err.Error()
+					return false
+				}
+			}
+			otherWant += sp.Burst.N
+			res.OtherSent += sp.Burst.N
+			if wait {
+				waitOther(rec, otherWant)
+			}
+			return true
+		}
+
+		if sp.Burst != nil && sp.Burst.at("before") {
+			start()
+			if !burst("before", true) {
+				d.Drain(10 * time.Minute)
+				return
+			}
+		}
+		for _, m := range sp.Msgs {
+			if err := under.Enqueue(queue.Envelope{ID: m.ID, Route: m.route(), Target: m.Target, Payload: []byte("p-" + m.ID), Headers: map[string]string{"X-M": m.ID}}); err != nil {
+				res.Infra = "enqueue: " + err.Error()
+				break
+			}
+			for i := 0; i < m.PreAttempts && !started; i++ {
+				resp, err := under.Dequeue(queue.DequeueRequest{Route: m.route(), Target: m.Target, Batch: 1, LeaseTTL: 30 * time.Second})
+				if err != nil || len(resp.Items) != 1 || resp.Items[0].ID != m.ID {
+					res.Infra = fmt.Sprintf("pre-attempt dequeue: err=%v items=%d", err, len(resp.Items))
+					break
+				}
+				if err := under.Nack(resp.Items[0].LeaseID, 0); err != nil {
+					res.Infra = "pre-attempt nack: " + err.Error()
+					break
+				}
+			}
+		}
+		if res.Infra != "" {
+			if started {
+				d.Drain(10 * time.Minute)
+			}
+			return
+		}
+		start()
+		burst("with", false)
+
+		for round := 0; res.Infra == ""; round++ {
 			if sp.DrainAtMS > 0 {
 				time.Sleep(time.Duration(sp.DrainAtMS) * time.Millisecond)
 				break
@@ -662,30 +756,73 @@ func runHistory(t *testing.T, sp Spec) Result {
 			if res.Stuck || rec.runaway || sp.StopAfter > 0 || round >= sp.Requeue {
 				break
 			}
-			// requeue every dead message from the DLQ: a new cycle
-			var ids []string
-			dl, err := under.ListDead(queue.DeadListRequest{Route: routePath, Limit: 100})
+			// the operator starts a new cycle for every dead message
+			lk, err := under.LookupMessages(queue.MessageLookupRequest{IDs: ids})
 			if err != nil {
-				res.Infra = "list dead: " + err.Error()
+				res.Infra = "lookup: " + err.Error()
 				break
 			}
-			for _, it := range dl.Items {
-				ids = append(ids, it.ID)
+			var dead []string
+			for _, it := range lk.Items {
+				if it.State == queue.StateDead {
+					dead = append(dead, it.ID)
+				}
 			}
-			if len(ids) == 0 {
+			sort.Strings(dead)
+			if len(dead) == 0 {
+				break
+			}
+			if sp.Restart == "cancel-resume" {
+				if r, err := under.CancelMessages(queue.MessageCancelRequest{IDs: dead}); err != nil || r.Canceled != len(dead) {
+					res.Infra = fmt.Sprintf("cancel: err=%v canceled=%d of %d", err, r.Canceled, len(dead))
+					break
+				}
+			}
+			if !burst("parked", true) { // other traffic passes while the messages sit in the DLQ (or canceled)
 				break
 			}
 			rec.mu.Lock()
-			for _, id := range ids {
+			for _, id := range dead {
 				rec.cycle[id]++
+				res.Restarts[id] = append(res.Restarts[id], rec.cycle[id])
 				delete(rec.terminal, id)
 			}
 			rec.mu.Unlock()
 			rec.rearm()
-			if _, err := under.RequeueDead(queue.DeadRequeueRequest{IDs: ids}); err != nil {
-				res.Infra = "requeue dead: " + err.Error()
+			n, extra := 0, 0
+			switch sp.Restart {
+			case "":
+				var r queue.DeadRequeueResponse
+				r, err = under.RequeueDead(queue.DeadRequeueRequest{IDs: dead})
+				n = r.Requeued
+			case "requeue-messages":
+				var r queue.MessageRequeueResponse
+				r, err = under.RequeueMessages(queue.MessageRequeueRequest{IDs: dead})
+				n = r.Requeued
+			case "requeue-filter":
+				// every dead message of the judged messages' route and target, other dead traffic on it included
+				var r queue.MessageRequeueResponse
+				r, err = under.RequeueMessagesByFilter(queue.MessageManageFilterRequest{Route: sp.Msgs[0].route(), Target: sp.Msgs[0].Target, State: queue.StateDead, Limit: 1000})
+				n = r.Requeued
+				if n > len(dead) {
+					extra, n = n-len(dead), len(dead)
+				}
+			case "cancel-resume":
+				var r queue.MessageResumeResponse
+				r, err = under.ResumeMessages(queue.MessageResumeRequest{IDs: dead})
+				n = r.Resumed
+			default:
+				err = fmt.Errorf("unknown restart %q", sp.Restart)
+			}
+			if err != nil || n != len(dead) {
+				res.Infra = fmt.Sprintf("restart %q: err=%v restarted=%d of %d", sp.Restart, err, n, len(dead))
 				break
 			}
+			otherWant += extra // dead other traffic that the filter requeued has to settle once more
+			burst("restarted", false)
+		}
+		if sp.Burst != nil && res.Infra == "" && !res.Stuck {
+			waitOther(rec, otherWant)
 		}
 		res.DrainOK = d.Drain(10 * time.Minute)
 		synctest.Wait()
@@ -695,32 +832,63 @@ func runHistory(t *testing.T, sp Spec) Result {
 		for id, l := range rec.logs {
 			res.Logs[id] = l
 		}
+		if sp.Burst != nil {
+			res.OtherOpen = otherWant - rec.otherSettled
+		}
 		rec.mu.Unlock()
 		res.Over = del.over
+		if res.Infra != "" {
+			return
+		}
+		// final state as the listings show it (one listing per route; the id lookup finds a message that a
+		// listing of at most 1000 rows does not reach)
+		listed := map[string]queue.Envelope{}
+		inDLQ := map[string]queue.Envelope{}
+		seenRoute := map[string]bool{}
 		for _, m := range sp.Msgs {
-			f := Final{}
-			lm, err := under.ListMessages(queue.MessageListRequest{Route: routePath, Limit: 1000})
+			if seenRoute[m.route()] {
+				continue
+			}
+			seenRoute[m.route()] = true
+			lm, err := under.ListMessages(queue.MessageListRequest{Route: m.route(), Limit: 1000})
 			if err != nil {
 				res.Infra = "list messages: " + err.Error()
 				return
 			}
 			for _, it := range lm.Items {
-				if it.ID == m.ID {
-					f.Present, f.State, f.DeadReason, f.Attempt = true, it.State, it.DeadReason, it.Attempt
-				}
+				listed[it.ID] = it
 			}
-			dl, err := under.ListDead(queue.DeadListRequest{Route: routePath, Limit: 1000})
+			dl, err := under.ListDead(queue.DeadListRequest{Route: m.route(), Limit: 1000})
 			if err != nil {
 				res.Infra = "list dead: " + err.Error()
 				return
 			}
 			for _, it := range dl.Items {
-				if it.ID == m.ID {
-					f.InDLQ = true
-					if !f.Present {
-						f.Present, f.State, f.DeadReason, f.Attempt = true, it.State, it.DeadReason, it.Attempt
-					}
+				inDLQ[it.ID] = it
+			}
+		}
+		lk, err := under.LookupMessages(queue.MessageLookupRequest{IDs: ids})
+		if err != nil {
+			res.Infra = "lookup: " + err.Error()
+			return
+		}
+		looked := map[string]queue.State{}
+		for _, it := range lk.Items {
+			looked[it.ID] = it.State
+		}
+		for _, m := range sp.Msgs {
+			f := Final{}
+			if it, ok := listed[m.ID]; ok {
+				f.Present, f.State, f.DeadReason, f.Attempt = true, it.State, it.DeadReason, it.Attempt
+			}
+			if it, ok := inDLQ[m.ID]; ok {
+				f.InDLQ = true
+				if !f.Present {
+					f.Present, f.State, f.DeadReason, f.Attempt = true, it.State, it.DeadReason, it.Attempt
 				}
+			}
+			if st, ok := looked[m.ID]; ok && !f.Present {
+				f.Present, f.State = true, st
 			}
 			res.Final[m.ID] = f
 			la, err := under.ListAttempts(queue.AttemptListRequest{EventID: m.ID, Limit: 1000})
@@ -734,4 +902,18 @@ func runHistory(t *testing.T, sp Spec) Result {
 	})
 	res.Draws = draws
 	return res
+}
+
+// waitOther lets virtual time pass until `want` other-traffic messages are settled (or 20 virtual minutes passed).
+func waitOther(rec *recorder, want int) {
+	for i := 0; i < 48000; i++ {
+		synctest.Wait()
+		rec.mu.Lock()
+		n := rec.otherSettled
+		rec.mu.Unlock()
+		if n >= want {
+			return
+		}
+		time.Sleep(25 * time.Millisecond)
+	}
 }
